@@ -377,6 +377,18 @@ def systematic_corner():
     out.append(case(V, cross([1, 2, 5, 4, 3], [1, 2], [K("ExactlyK", k=1, f=3, l=1), K("ExactlyK", k=1, f=4, l=1), K("ExactlyK", k=1, f=5, l=2),
                                                      K("MinimumTrials", k=6)]), "B",
                     ["two-complex", "three-complex"], "cor-three-complex"))
+    # run-length constraints with k >= 3 (windows longer than k+1 trials: several k+1-sublists, FX25)
+    Fk = [basic("a", 2, [2, 1]), basic("b", 2)]
+    for kk in (3, 4):
+        for cn in ("AtLeastKInARow", "ExactlyKInARow", "AtMostKInARow"):
+            out.append(case(Fk, cross([1, 2], [1, 2], [K(cn, k=kk, f=1, l=1)]), "B", [cn, "k%d" % kk, "long-window"],
+                            "cor-k%d-%s" % (kk, cn)))
+    Fk2 = [basic("a", 2), basic("b", 2)]
+    for cn in ("AtLeastKInARow", "ExactlyKInARow"):
+        out.append(case(Fk2, cross([1, 2], [1], [K(cn, k=3, f=2, l=1), K("MinimumTrials", k=7)]), "B", [cn, "k3", "uncrossed", "long-window"],
+                        "cor-k3-%s-free7" % cn))
+        out.append(case(Fk2, cross([1, 2], [1], [K(cn, k=3, f=2, l=0), K("MinimumTrials", k=6)]), "B", [cn, "k3", "whole-factor", "long-window"],
+                        "cor-k3-%s-whole6" % cn))
     # MinimumTrials below the crossing size, equal to it, 1
     for m in (1, 3, 4):
         out.append(case(F, cross(full, [1, 2], [K("MinimumTrials", k=m)]), "B", ["MinimumTrials", "small"], "cor-min%d" % m))
